@@ -8,7 +8,8 @@ MC   : TLC explores ALL interleavings of G goroutines x M renders over the share
        literal cache (mutex, cached?, stat, reload, file rewritten meanwhile) and the once-handle id counter;
        and over the kinds of destination a goroutine renders into (plain writer, its own long-lived bufio.Writer at least
        as big as / smaller than the pool buffers, its own runtime.Buffer; the caller flushes after Render);
-       invariants ExclusiveBuffer, Isolated, OwnDestinationOnly, MutexProtectsCache, LiteralsAreAVersion, UniqueIds.  Negative
+       and over a writer that is stalled (it may never come back) while other goroutines render in development mode;
+       invariants ExclusiveBuffer, Isolated, OwnDestinationOnly, IndependentOfStalledWriters, MutexProtectsCache, LiteralsAreAVersion, UniqueIds.  Negative
        configs (Put before the flush, missing Reset, scratch object released twice, cache read outside the mutex,
        non-atomic id) must be rejected.
 VAL  : the Go scheduler cannot be replayed step by step, so the binding is trace validation + stress: a harness
@@ -17,7 +18,9 @@ VAL  : the Go scheduler cannot be replayed step by step, so the binding is trace
        templ.ToGoHTML and the buffered templ.Handler for the bytes.Buffer pool, and a Gallery template whose variants
        go through class expressions in every container form, css components, script templates / on* attributes,
        style, URL and spread attributes, JSONScript, Raw) from N goroutines x M renders, every goroutine with a
-       destination of one of the four kinds; before that, on one goroutine, A, B, A, B into two destinations of each kind;
+       destination of one of the four kinds; before that a render of a document larger than the buffer into a writer that
+       stalls, during which 4 goroutines must complete their renders within 10 s (every wait is bounded: verdict or exit 2,
+       never a hang); and, on one goroutine, A, B, A, B into two destinations of each kind;
        a second process runs with TEMPL_DEV_MODE=true against literal text files (TEMPL_DEV_MODE_ROOT in scratch)
        that a goroutine keeps rewriting (all goroutines leave the same 130 ms of every 500 ms idle, so the cache
        reloads whatever its look-again policy is -- WHEN it reloads is C16's property, not this one's; a tree
@@ -38,6 +41,7 @@ NEG = {  # seeded defect -> (DevMode, invariants that may reject it)
     "cacheunlocked": ("TRUE", {"MutexProtectsCache"}),
     "idrace": ("FALSE", {"UniqueIds"}),
     "doubleput": ("FALSE", {"ExclusiveBuffer", "Isolated"}),
+    "lockacrosswrite": ("TRUE", {"IndependentOfStalledWriters"}),  # checked on RenderPool_stall.cfg
     "adoptbufio": ("FALSE", {"OwnDestinationOnly", "Isolated"}),  # checked on RenderPool_dest.cfg (all destination kinds)      # a pooled scratch object released twice for one Get
 }
 
@@ -188,6 +192,8 @@ def main():
         "dev-g2": dict(cfgtext=cfg("RenderPool_dev.cfg"), workers=4),
         # destination kinds: plain writer / the goroutine's own bufio.Writer (>= and < the pool buffer's size) / its own Buffer
         "dest-g2": dict(cfgtext=cfg("RenderPool_dest.cfg"), workers=4),
+        # development mode while the writer of one render is stalled (and may never come back)
+        "stall-g2": dict(cfgtext=cfg("RenderPool_stall.cfg"), workers=4),
     }
     if thorough:
         jobs["dev-g3"] = dict(cfgtext=cfg("RenderPool_dev.cfg", G="<- G3", NBuf="= 3"), workers=12)
@@ -195,9 +201,11 @@ def main():
     if thorough:
         jobs["dest-g3"] = dict(cfgtext=cfg("RenderPool_dest.cfg", G="<- G3", NBuf="= 3", DocLen="= 1"), workers=8)
     # a new pool buffer adopts the caller's *bufio.Writer (bufio.NewWriterSize(w, size) returns w itself)
+    # development-mode WriteString keeps the global lock while it writes to the caller's writer
+    jobs["neg-lockacrosswrite"] = dict(cfgtext=cfg("RenderPool_stall.cfg", Bug='= "lockacrosswrite"'), workers=1)
     jobs["neg-adoptbufio"] = dict(cfgtext=cfg("RenderPool_dest.cfg", Bug='= "adoptbufio"'), workers=1)
     for bug, (dev, _) in NEG.items():
-        if bug == "adoptbufio":
+        if bug in ("adoptbufio", "lockacrosswrite"):
             continue
         jobs["neg-" + bug] = dict(cfgtext=cfg("RenderPool_neg.cfg", Bug='= "%s"' % bug, DevMode="= " + dev), workers=1)
     results = {}
@@ -261,6 +269,11 @@ def main():
         if races and p.returncode != 0:
             continue     # the Go runtime aborted the process (concurrent map access): already reported
         sm = vlib.harness_results(ck, p, "%s run, %d goroutines: " % (mode, g))
+        if sm.get("completed_while_a_writer_was_stalled", 0) < 12:
+            # a verdict (IndependentOfStalledWriters) was reported by the harness; still fail closed on a silent harness
+            if not any(sig == "IndependentOfStalledWriters" for (sig, _, _) in ck.violations) and "IndependentOfStalledWriters" not in ck.known_hit:
+                raise vlib.InfraError("stalled-writer test of run %d completed only %s renders without reporting it" %
+                                      (i, sm.get("completed_while_a_writer_was_stalled")))
         if mode == "stress" and sm["renders"] != g * n:
             raise vlib.InfraError("stress run %d: %d renders instead of %d" % (i, sm["renders"], g * n))
         if sm["hook_calls"] < sm["renders"] or sm["events"] < sm["renders"]:
